@@ -23,6 +23,7 @@ func checkC18(c *Ctx) {
 	r181b(c)
 	r182(c, "R18.2 lock-order-and-blocking-under-lock")
 	r183(c)
+	rNoLockCopies(c, "R18.4 no-lock-copies")
 }
 
 // constructionPhase: functions in which the receiver / object written is not yet shared with another goroutine.
@@ -168,7 +169,10 @@ func r181(c *Ctx) {
 			writes := 0
 			for _, a := range c.accessesOf(f) {
 				if _, ok := constructionPhase[fname(outer(a.fn))]; ok {
-					continue
+					// (CopyWithOptions builds a fresh copy FROM the live service: what it reads of its receiver is shared)
+					if !(fname(outer(a.fn)) == "(*server.Service).CopyWithOptions" && len(a.fn.Params) > 0 && resolve(a.base) == ssa.Value(a.fn.Params[0])) {
+						continue
+					}
 				}
 				if _, isAlloc := a.base.(*ssa.Alloc); isAlloc {
 					continue // composite literal / local value
@@ -198,6 +202,10 @@ func r181(c *Ctx) {
 					if a.write && m < modeW {
 						continue
 					}
+					// (a lock of the same struct taken on ANOTHER object does not protect this one's field)
+					if c.lockOnOtherObject(li, a, l, modeR) != "" {
+						continue
+					}
 					need[l] = m
 				}
 				if i == 0 {
@@ -218,7 +226,13 @@ func r181(c *Ctx) {
 				if a.write {
 					k = "WRITE"
 				}
-				bad = append(bad, fmt.Sprintf("%s in %s @%s holds %s", k, fname(a.fn), c.pos(a.instr.Pos()), held))
+				wrong := ""
+				for l := range held {
+					if at := c.lockOnOtherObject(li, a, l, modeR); at != "" {
+						wrong = " (" + lockName(l) + " taken at " + at + " on a different object)"
+					}
+				}
+				bad = append(bad, fmt.Sprintf("%s in %s @%s holds %s%s", k, fname(a.fn), c.pos(a.instr.Pos()), held, wrong))
 			}
 			sort.Strings(bad)
 			if len(bad) > 14 {
@@ -798,4 +812,73 @@ func (c *Ctx) rpcReplyOf(tn string) string {
 		}
 	}
 	return found
+}
+
+// rNoLockCopies: a mutex protects nothing once it is copied: no function of the module takes or returns BY VALUE a struct
+// that contains a sync lock / wait group / once / atomic value (a method with a value receiver locks the copy made for
+// that call), and no such struct is copied out of a pointer (shared by C12: the snapshot lock must be the router's own).
+func rNoLockCopies(c *Ctx, rule string) {
+	c.floor(rule, 20)
+	var hasLock func(t types.Type, seen map[types.Type]bool) bool
+	hasLock = func(t types.Type, seen map[types.Type]bool) bool {
+		if seen[t] {
+			return false
+		}
+		seen[t] = true
+		if n, ok := t.(*types.Named); ok && n.Obj().Pkg() != nil {
+			switch n.Obj().Pkg().Path() {
+			case "sync":
+				switch n.Obj().Name() {
+				case "Mutex", "RWMutex", "WaitGroup", "Once", "Cond", "Map", "Pool":
+					return true
+				}
+			case "sync/atomic":
+				return true
+			}
+		}
+		switch u := t.Underlying().(type) {
+		case *types.Struct:
+			for i := 0; i < u.NumFields(); i++ {
+				if hasLock(u.Field(i).Type(), seen) {
+					return true
+				}
+			}
+		case *types.Array:
+			return hasLock(u.Elem(), seen)
+		}
+		return false
+	}
+	n := 0
+	for _, fn := range c.modFuncs {
+		if fn.Synthetic != "" || fn.Signature == nil {
+			continue
+		}
+		n++
+		bad := ""
+		sig := fn.Signature
+		if r := sig.Recv(); r != nil && hasLock(r.Type(), map[types.Type]bool{}) {
+			bad = "value receiver of type " + typeString(r.Type())
+		}
+		for _, tp := range []*types.Tuple{sig.Params(), sig.Results()} {
+			for i := 0; i < tp.Len(); i++ {
+				if hasLock(tp.At(i).Type(), map[types.Type]bool{}) {
+					bad = "parameter / result of type " + typeString(tp.At(i).Type()) + " passed by value"
+				}
+			}
+		}
+		// copies made inside: *p loaded as a whole
+		for _, b := range fn.Blocks {
+			for _, in := range b.Instrs {
+				if u, ok := in.(*ssa.UnOp); ok && u.Op == token.MUL && hasLock(u.Type(), map[types.Type]bool{}) {
+					if _, isStruct := u.Type().Underlying().(*types.Struct); isStruct {
+						bad = "copies a " + typeString(u.Type()) + " (with its locks) at " + c.pos(u.Pos())
+					}
+				}
+			}
+		}
+		if bad != "" || fn.Signature.Recv() != nil {
+			c.ob(rule, "no-lock-copy in "+fname(fn), fn.Pos(), bad == "", true, "a lock must be used where it lives: "+bad)
+		}
+	}
+	c.note("lock-copy rule: %d functions examined", n)
 }
